@@ -37,6 +37,7 @@
 (*                     Remote = TRUE)                                      *)
 (*   "ReleaseOtherKey" endpoint/smtp/session.go: Mail overwrites the       *)
 (*                     cleaned sender, releaseLimits uses another key      *)
+(*                     (callers: Endp = TRUE)                              *)
 (***************************************************************************)
 EXTENDS LimitsObs, Integers, TLC, Json
 
@@ -49,6 +50,8 @@ CONSTANTS Msgs,       \* callers (concurrent deliveries)
           FillOK,     \* TRUE: the bulk-fill action is available
           Devs,       \* enabled deviations
           Eager,      \* TRUE: callers act only when every goroutine has run to its blocking point
+          Endp,       \* TRUE: the callers are SMTP sessions (startDelivery / releaseLimits): the pipeline
+                      \*       may refuse the sender right after TakeMsg succeeded
           Remote,     \* TRUE: the callers are remote deliveries (Start / connectionForDomain / Close):
                       \*       a delivery ends with one End call, the next hop may refuse MAIL
           Gen         \* TRUE: keep the script history and print complete behaviours
@@ -286,6 +289,15 @@ CallRelMsg(m, src2) ==
   /\ hist' = H([a |-> "RelMsg", m |-> m, src |-> src2])
   /\ devs' = IF src2 = arg[m].src THEN devs ELSE devs \cup {"ReleaseOtherKey"}
 
+\* endpoint/smtp/session.go:startDelivery: TakeMsg succeeded, then pipeline.Start refuses
+\* the sender: ReleaseMsg under the same keys before startDelivery returns the error
+PipeReject(m) ==
+  /\ Endp /\ phase = "run"
+  /\ pc[m] = "r_ok" /\ obs.pend[m].op = "TakeMsg"
+  /\ Goto(m, "x_all") /\ Result(m, "rejected")
+  /\ hist' = H([a |-> "PipeReject", m |-> m])
+  /\ UNCHANGED <<cfg, arg, held, exp, age, ops, sem, tab, fresh, extra, xfresh, devs, phase, obs>>
+
 \* remoteDelivery.Close / Abort / Commit: ReleaseDest for every connection of the
 \* delivery (map order), then ReleaseMsg
 CallEnd(m) ==
@@ -324,7 +336,7 @@ MailReject(m, d) ==
 
 Return(m) ==
   /\ pc[m] \in RetPc
-  /\ LET r == IF pc[m] = "r_ok" \/ pc[m] = "r_rel" THEN "ok" ELSE res[m]
+  /\ LET r == IF pc[m] = "r_ok" \/ (pc[m] = "r_rel" /\ res[m] # "rejected") THEN "ok" ELSE res[m]
          op == obs.pend[m].op
          ends == (op = "TakeMsg" /\ r # "ok") \/ op = "RelMsg" \/ op = "End" IN
        /\ obs' = ObsRet(obs, m, r)
@@ -411,7 +423,7 @@ Next ==
   \/ \E m \in Msgs : Step(m) \/ Return(m)
   \/ \E m \in Msgs, ip \in IPs, src \in Srcs : CallTakeMsg(m, ip, src)
   \/ \E m \in Msgs, d \in Dsts : CallTakeDest(m, d) \/ CallRelDest(m, d) \/ MailReject(m, d)
-  \/ \E m \in Msgs : CallEnd(m) \/ EndDst(m)
+  \/ \E m \in Msgs : CallEnd(m) \/ EndDst(m) \/ PipeReject(m)
   \/ \E m \in Msgs, src2 \in Srcs : CallRelMsg(m, src2)
   \/ Tick \/ Minute
   \/ \E m \in Msgs : Expire(m)
